@@ -331,6 +331,17 @@ theorem txn_commit_applies_all (ts : List Transition) (w : World)
   simpa [commit] using this
 
 open Txn in
+/-- **Commit applies the transitions in the order they were added** (not LIFO like `Rollback`): committing
+`ts ++ [t]` = committing `ts`, then `t`; in particular for two transitions on one manager the last one added wins.
+The publication orders of trace (core before index for introductions, index before core for sync) rest on this. -/
+theorem txn_commit_in_order (w : World) (ts : List Transition) (t : Transition) :
+    (commit w { ts := ts ++ [t], finalized := false }).1 = (tCommit (commitAll w ts).1 t).1 ∧
+    (t.committed = false → (commit w { ts := ts ++ [t], finalized := false }).1.cur t.mgr = t.next) := by
+  refine ⟨?_, fun ht => ?_⟩
+  · simpa [commit] using (commitAll_append w ts t).1
+  · simpa [commit] using commitAll_last_wins w ts t ht
+
+open Txn in
 /-- … and after the callers released their transitions every reference is accounted for: each count is exactly
 *managers pointing at the snapshot + frame*.  For ANY list of freshly prepared transitions and ANY frame. -/
 theorem txn_balanced_after_release (nM : Nat) (ts : List Transition) (w : World) (R : Nat → Int)
